@@ -1,6 +1,9 @@
+mod alloc;
 mod bits;
 mod catalogue;
 mod codec;
+mod derive;
+mod derive_gen;
 mod lowlevel;
 mod model;
 mod out;
@@ -9,6 +12,9 @@ mod rng;
 use bits::{run_arb, run_bitbytes, run_bitops, run_serde};
 use codec::Ctx;
 use std::collections::HashSet;
+
+#[global_allocator]
+static GLOBAL: alloc::Counting = alloc::Counting;
 
 fn run_type<T: model::Model>(ctx: &mut Ctx) {
     if let Some(t) = &ctx.only_type {
@@ -45,6 +51,9 @@ fn run_type<T: model::Model>(ctx: &mut Ctx) {
     }
     if ctx.on("dec") {
         codec::run_dec::<T>(ctx);
+    }
+    if ctx.on("alloc") {
+        alloc::run_alloc::<T>(ctx);
     }
 }
 
@@ -163,7 +172,17 @@ fn main() {
     if ctx.on("arb") {
         for_each_bitfield!(run_arb, &mut ctx);
     }
-    if ctx.on("meta") || ctx.on("enc") || ctx.on("entry") || ctx.on("dec") {
+    if ctx.on("alloc") {
+        alloc::run_alloc_listvar(&mut ctx);
+    }
+    if ctx.on("derive") {
+        use derive::run_derive;
+        for_each_derived!(run_derive, &mut ctx);
+    }
+    if ctx.on("legacy") {
+        derive::run_legacy(&mut ctx);
+    }
+    if ctx.on("meta") || ctx.on("enc") || ctx.on("entry") || ctx.on("dec") || ctx.on("alloc") {
         for_each_type!(run_type, &mut ctx);
     }
     ctx.out.finish();
